@@ -61,25 +61,29 @@ def gen_chain(tier, rng):
     out = []
     quick = tier == "quick"
     # exhaustive short payloads over the token alphabet (all byte lengths mod 3) x the property's chains
-    kmax = 2 if quick else 4
+    kmax = 2 if quick else 3
     words = ["".join(t) for k in range(kmax + 1) for t in itertools.product(TOK, repeat=k)]
     for w in words:
         for ch in CHAINS:
             out.append(mk(rng, ch, [{"s": w}]))
-    if quick:   # length 3 for the offset chains and a sample of length 4
-        w3 = ["".join(t) for t in itertools.product(TOK, repeat=3)]
-        for w in w3:
-            out.append(mk(rng, ["base64offset"], [{"s": w}]))
-        for w in rng.sample(w3, 120):
-            for ch in (["wide", "base64offset"], ["utf16be", "base64offset"], ["wide", "base64"], ["base64"]):
-                out.append(mk(rng, ch, [{"s": w}]))
+    # one token more: exhaustive for base64offset (thorough: also wide|base64offset), sampled for the other chains
+    wn = ["".join(t) for t in itertools.product(TOK, repeat=kmax + 1)]
+    for w in wn:
+        out.append(mk(rng, ["base64offset"], [{"s": w}]))
+        if not quick:
+            out.append(mk(rng, ["wide", "base64offset"], [{"s": w}]))
+    for w in rng.sample(wn, 80 if quick else 500):
+        for ch in (["wide", "base64offset"], ["utf16be", "base64offset"], ["wide", "base64"], ["base64"],
+                   ["utf16be", "base64"], ["wide"], ["utf16be"], ["utf16", "base64offset"]):
+            out.append(mk(rng, ch, [{"s": w}]))
     # with contains at the end (observe_at: f|base64offset|contains)
-    for w in rng.sample(words, min(len(words), 60 if quick else 600)):
+    for w in rng.sample(words, min(len(words), 60 if quick else 300)):
         for ch in CHAINS_C:
             out.append(mk(rng, ch, [{"s": w}]))
     # hostile single characters and strings on every chain, odd chains included
     for w in HOSTILE + HOSTILE_STR + TOK:
-        for ch in CHAINS + CHAINS_C + ODD_CHAINS:
+        others = CHAINS_C + ODD_CHAINS
+        for ch in CHAINS + (rng.sample(others, 8) if quick else others):
             out.append(mk(rng, ch, [{"s": w}]))
     # values that are not strings, lists of values
     for ch in CHAINS + [[], ["contains"]]:
@@ -89,7 +93,7 @@ def gen_chain(tier, rng):
         out.append(mk(rng, ch, [{"s": "ab"}, {"s": "é*"}]))
         out.append(mk(rng, ch, [{"s": "ab"}, {"o": 7}]))
     # random longer payloads
-    for _ in range(400 if quick else 12000):
+    for _ in range(400 if quick else 6000):
         n = rng.choice([1, 2, 3, 4, 5, 6, 7, 8, 9, 12, 17, 25, 40])
         ch = rng.choice(CHAINS * 3 + CHAINS_C + ODD_CHAINS[:8])
         out.append(mk(rng, ch, [{"s": rand_payload(rng, n)}]))
@@ -128,7 +132,7 @@ def cival(v):
 def chain_to_coq(c, r):
     ms = clist(MODC[m] for m in c["mods"])
     ps = clist(f"PVStr {cstr(p['s'])}" if "s" in p else "PVOther" for p in c["payloads"])
-    sur = clist(f"({cbytes(bytes(a))}, {cbytes(bytes(b))})" for a, b in c["sur"])
+    sur = "(" + clist(f"({cbytes(bytes(a))}, {cbytes(bytes(b))})" for a, b in c["sur"]) + " : list (list N * list N))"
     if "exc" in r:
         if r.get("sigma"):
             tag = {"SigmaValueError": 1, "SigmaPlaceholderError": 2, "SigmaTypeError": 3}.get(r["exc"], 99)
@@ -243,9 +247,9 @@ PROPERTY = Property(
     pid="C04", props_file="Props/C04.v",
     suites=[Suite("chain", gen_chain, "run_chain", REQ, "judge_chain", chain_to_coq, known=known_chain,
                   mutate=mutate_chain, py_oracle=py_oracle_chain, stratum=stratum_chain, shard=150)],
-    rule="payloads over the tokens {a Z - \\* é € U+0100 U+2A00} exhaustive up to 2 tokens (quick; 3 for base64offset) / 4 tokens (thorough) "
-         "on the 11 chains [wide|utf16be|utf16]?[base64|base64offset]?, a sample with |contains, 70 hostile characters/strings (wildcards, "
-         "backslashes, surrogates, astral characters whose UTF-16 bytes are valid UTF-8, BOM, padding characters) on 38 chains incl. odd orders, "
+    rule="payloads over the tokens {a Z - \\* é € U+0100 U+2A00} exhaustive up to 2 tokens (quick) / 3 tokens (thorough) on the 11 chains "
+         "[wide|utf16be|utf16]?[base64|base64offset]?, one token more exhaustively for base64offset (thorough: and wide|base64offset) and sampled for the others, a sample with |contains, 70 hostile characters/strings (wildcards, "
+         "backslashes, surrogates, astral characters whose UTF-16 bytes are valid UTF-8, BOM, padding characters) on the 11 chains plus 8 of (quick) / all (thorough) 27 further chains incl. |contains and odd orders, "
          "non-string values, value lists, random payloads up to 40 tokens; for base64offset every case carries 36 surroundings "
          "(prefix length 0..5 x suffix length 0..5, bytes random / boundary / spaces / taken from the payload). "
          "non-trivial = non-empty string payload under a non-empty chain; distinct by case hash",
